@@ -202,6 +202,38 @@ class Flow:
                     hit = [d for d, v in zip(ds, vs) if v in want]
                     if len(hit) == 1 and hit[0][0] == 'assign' and (el['dc'] in ('Ok', 'Some', 'Continue') or '<residual>' not in vs):
                         return self.rvalue(hit[0][3], depth + 1)
+                if len(ds) >= 2 and el['dc'] not in PAYLOAD_VARIANTS and el['dc'] not in ('Err', 'None', 'Break', 'Pending'):
+                    # the join holds a wrapper (Ok(..) / Some(..)) whose payload is read as variant V of an inner enum
+                    # (`match helper()? { Verdict::Track(x) => .. }` after inlining): look through the transparent wrappers
+                    cands = []
+                    complete = [True]
+
+                    def expand(v, lvl):
+                        while v[0] == 'agg' and v[1] == 'adt' and v[2].split('::')[-1] in PAYLOAD_VARIANTS and len(v[3]) == 1:
+                            v = v[3][0][1]
+                        if v[0] == 'agg' and v[1] == 'adt':
+                            if v[2].endswith('::' + el['dc']):
+                                cands.append(v)
+                            return
+                        if v[0] == 'local' and lvl < 4 and v[1] not in self.partial:
+                            ds2 = self.defs.get(v[1], [])
+                            if ds2 and all(d2[0] == 'assign' for d2 in ds2):
+                                for d2 in ds2:
+                                    expand(self.rvalue(d2[3], depth + 1), lvl + 1)
+                                return
+                        if v[0] == 'call' and strip_generics(v[1]).endswith('FromResidual::from_residual'):
+                            return
+                        complete[0] = False     # a value of unknown variant
+
+                    for d in ds:
+                        if d[0] == 'assign':
+                            expand(self.rvalue(d[3], depth + 1), 0)
+                        elif not (d[0] == 'call' and strip_generics(d[2].get('fn', '')).endswith('FromResidual::from_residual')):
+                            complete[0] = False
+                    if len(cands) == 1 and complete[0]:
+                        return cands[0]
+                if len(ds) >= 2 and all(v is not None for v in vs):
+                    pass
                 elif len(ds) >= 2 and el['dc'] in ('Ok', 'Some', 'Continue'):
                     # every assignment but one is the failing arm of a `?` (an Err / None): read as the success variant, the
                     # value can only be that one assignment's (a call result returned as the helper's tail expression)
